@@ -154,6 +154,7 @@ func judgeSrc(src string) (v verdict) {
 		}()
 		v.issues, v.stats = irx.StrictValidateStats(m)
 	}()
+	v.issues = append(v.issues, ioAttrIssues(src, m)...)
 	func() {
 		defer func() {
 			if r := recover(); r != nil {
